@@ -418,9 +418,10 @@ def run(ctx):
         cls = load(mod, name)
         menu = option_menu(cls)
         import time as _t
-        t0 = _t.time()
+        # CPU time, not wall time: the decision must not depend on load
+        t0 = _t.process_time()
         static_check(cls, 2, True, True, {})
-        slow = (_t.time() - t0) > 1.0
+        slow = (_t.process_time() - t0) > 1.0
         if slow and not ctx.thorough:
             # expensive code generation: bounded deviation instead of the
             # full product
@@ -457,7 +458,10 @@ def run(ctx):
             for dim, solid in cases:
                 rjobs.append((mod, name, dim, solid, o))
     viol = {}
+    import time as _t
+    tA0 = _t.time()
     res = map_jobs(_static_job, sjobs, ctx.ncpu, job_timeout=3000)
+    tA = _t.time() - tA0
     nA = nsupA = 0
     for job, r in zip(sjobs, res):
         if isinstance(r, Crash):
@@ -470,7 +474,9 @@ def run(ctx):
         for key, what, rep, nd in out:
             if key not in viol or nd < viol[key][0]:
                 viol[key] = (nd, what, rep)
+    tB0 = _t.time()
     res = map_jobs(_run_job, rjobs, ctx.ncpu, job_timeout=3000)
+    tB = _t.time() - tB0
     nB = 0
     for job, r in zip(rjobs, res):
         if isinstance(r, Crash):
@@ -490,6 +496,8 @@ def run(ctx):
     cov = dict(evaluations=nA + nB, distinct_nontrivial=nsupA + nB,
                tierA_configurations=nA, tierA_supported=nsupA,
                tierB_compiled_runs=nB, schemes=complete, exhaustive=True,
+               tierA_seconds=round(tA, 1), tierB_seconds=round(tB, 1),
+               tierA_jobs=len(sjobs), tierB_jobs=len(rjobs),
                samples=[dict(scheme='WCSPHScheme', dim=2, solid=True,
                              opts=dict(delta_sph=True))],
                rule='tier A: for each of 17 scheme classes the full product '
